@@ -536,7 +536,7 @@ func TestVerifC28Survive(t *testing.T) {
 					var d string
 					data, d = c28Mutate(t, data, sg.Info)
 					desc = append(desc, fmt.Sprintf("%s:%s", sg.Name[11:19], d))
-					classes["mut:"+strings.SplitN(strings.SplitN(strings.SplitN(d, "(", 2)[0], "@", 2)[0], "=", 2)[0]] = true
+					classes["mut:"+strings.SplitN(strings.SplitN(strings.SplitN(strings.SplitN(d, "(", 2)[0], "@", 2)[0], "=", 2)[0], "[", 2)[0]] = true
 				}
 				// still passes the magic checks of the header reader?
 				if len(data) >= 8 && string(data[4:8]) == "ftyp" {
